@@ -320,8 +320,10 @@ package loadbalancer
 
 
 //@ pred distinct_IPHashConsistentStrategy(s *IPHashConsistentStrategy) := forall i int :: forall j int :: 0 <= i && i < j && j < len(s.backends) ==> s.backends[i] != s.backends[j]
+// (C06: jump hash maps a key to a bucket INDEX; "adding a backend moves a client only to the new backend" holds
+// only because a new backend takes the last index and every other backend keeps its index.)
 //@ func (*IPHashConsistentStrategy).AddBackend
-//@   props C11 C12
+//@   props C11 C12 C06
 //@   requires unlocked(iph.mutex)
 //@   ensures appended: len(iph.backends) == old(len(iph.backends)) + 1 && iph.backends[old(len(iph.backends))] == backend
 //@   ensures kept: forall i int :: {iph.backends[i]} {old(iph.backends[i])} 0 <= i && i < old(len(iph.backends)) ==> iph.backends[i] == old(iph.backends[i])
